@@ -36,12 +36,38 @@ def run(tier):
             bad += 1; ck.violation("tie-broken:fuzzer-model", "identifier spelling differs from Model/Fuzzer.v (longest %s, %s without upper-case letter or underscore)" % (d["maxident"], d["unmarked"]), "requested kilobytes: " + kbs)
         if d["delta_tokens"] and int(d["delta_tokens"]) - 2 != int(d["alpha_tokens"]):
             stats["token-count-differs"] += 1     # `return!`, `_` ... (listed lexer divergences, not errors)
+    # the command line tool itself: `penne fuzz tokens --kb K --out-dir D` (main.rs chooses the capacity)
+    from . import c18
+    import os, shutil, subprocess, glob
+    ncli = 0
+    if c18.build_penne(ck):
+        root = os.path.join(ck.work, "cli"); shutil.rmtree(root, ignore_errors=True); os.makedirs(root)
+        files = []
+        for j, kb in enumerate([1, 1, 2, 3, 8, 16, 64] * (1 if tier == "quick" else 20)):
+            d = os.path.join(root, "r%d" % j); os.makedirs(d)      # the tool does not create the directory
+            p = subprocess.run([c18.PENNE, "fuzz", "tokens", "--kb", str(kb), "--out-dir", d], cwd=root, capture_output=True, timeout=300)
+            outs = sorted(glob.glob(os.path.join(d, "**", "*.pn"), recursive=True))
+            if p.returncode != 0 or len(outs) != 1:
+                bad += 1; ck.violation("cli-fuzz-failed", "penne fuzz tokens --kb %d --out-dir D: exit %d, %d files written" % (kb, p.returncode, len(outs)), p.stderr.decode(errors="replace")[-1500:]); continue
+            data = open(outs[0], "rb").read(); ncli += 1
+            if len(data) < kb * 1024:
+                bad += 1; ck.violation("too-short:cli", "penne fuzz tokens --kb %d wrote %d bytes" % (kb, len(data)), "penne fuzz tokens --kb %d --out-dir D\nfile size: %d" % (kb, len(data))); continue
+            try: data.decode("utf-8")
+            except UnicodeDecodeError:
+                bad += 1; ck.violation("invalid-utf8", "the file written by penne fuzz tokens is not valid UTF-8", repr(data[:2000])); continue
+            files.append(("f%d" % j, data))
+        lexed = C.run_harness("lex", files, ck.work + "/clilex", timeout=1800) if files else {}
+        for cid, data in files:
+            f = lexed.get(cid, ["missing", "missing"])
+            if any("Error " in x for x in f[:2]) or f[0] in ("missing", "not-utf8") or f[0].startswith("panic"):
+                bad += 1; ck.violation("invalid-lexeme", "the file written by penne fuzz tokens has lexical errors", data.decode("utf-8", errors="replace")[:20000])
+    ck.log("command line tool: %d files written and lexed" % ncli)
     ck.log("fuzzer: %d runs, %d bytes, longest identifier %d, %d token kinds seen, %s, %d problems" % (stats["runs"], total, maxident, kinds, dict(stats), bad))
     if not proof_ok:
         ck.violation("tie-broken:proof", "Props/C19.v no longer checks", getattr(ck, "proof_output", "")[-2000:])
     ck.coverage.update(
         evaluations=len(cases), distinct_nontrivial=stats["runs"], bytes_generated=total,
-        rule="the real fill_to_capacity_with_tokens(95, buffer, 0) with capacity kb * 1096 for kb in {1,1,1,2,2,3,4,8,16,32,64} x %d runs (fresh random state each), lexed by both real lexers: zero lexical errors, at least kb KiB, valid UTF-8; identifier spelling facts of the model (<= 38 characters, an upper-case letter or underscore) checked on every text" % runs,
+        rule="the real fill_to_capacity_with_tokens(95, buffer, 0) with capacity kb * 1096 for kb in {1,1,1,2,2,3,4,8,16,32,64} x %d runs (fresh random state each), lexed by both real lexers: zero lexical errors, at least kb KiB, valid UTF-8; plus the command line tool `penne fuzz tokens --kb K --out-dir D` for K in {1,1,2,3,8,16,64} (file size, UTF-8, both lexers); identifier spelling facts of the model (<= 38 characters, an upper-case letter or underscore) checked on every text" % runs,
         stats=dict(stats), problems=bad, longest_identifier=maxident, token_kinds_seen=kinds,
         samples=[dict(case=cases[0][0], result=impl.get(cases[0][0], ["?"])[0])])
     return ck.finish()
